@@ -5,7 +5,7 @@ import math
 ID = "C14"
 THEOREM_MODULE = "SimVerif.Props.C14"
 NONTRIVIAL_FLAGS = {"dropped", "multi-kept", "rank-tie", "filtered"}
-RULE = ("requests `nms n (aspect height score xc yc angle)*n thr sthr`: 0..40 boxes (clustered, sparse, duplicated, nested, "
+RULE = ("requests `nms n (aspect height score xc yc angle stale)*n thr sthr`: 0..40 boxes (10% of them with a vertex cache generated under another geometry, clustered, sparse, duplicated, nested, "
         "rotated, invalid mixed in), nms threshold in (0,1), score threshold none/below/inside/above the score range; "
         "a request is non-trivial when the model flags one of: a candidate dropped by suppression, >=2 boxes kept, "
         "a rank tie, a box removed by the score/validity filter; distinct = distinct request line")
@@ -44,13 +44,13 @@ def box_line(rng, n, mode):
         sm = rng.random()
         score = None if mode == "noscore" or sm < 0.1 else (rng.choice([0.25, 0.5, 0.75]) if sm < 0.35 else rng.uniform(0, 1))
         boxes.append((f32(aspect), f32(height), None if score is None else f32(score), f32(xc), f32(yc),
-                      None if angle is None else f32(angle)))
+                      None if angle is None else f32(angle), 1 if rng.random() < 0.1 else 0))
     thr = f32(rng.choice([0.05, 0.3, 0.5, 0.8, 0.95, rng.uniform(0.01, 0.99)]))
     sm = rng.random()
     sthr = None if sm < 0.4 else f32(rng.choice([-1.0, 0.25, 0.5, 0.9, 2.0, rng.uniform(0, 1)]))
     toks = ["nms", str(len(boxes))]
-    for a, h, s, x, y, ang in boxes:
-        toks += [f32tok(a), f32tok(h), optf32(s), f32tok(x), f32tok(y), optf32(ang)]
+    for a, h, s, x, y, ang, st in boxes:
+        toks += [f32tok(a), f32tok(h), optf32(s), f32tok(x), f32tok(y), optf32(ang), str(st)]
     toks += [f32tok(thr), optf32(sthr)]
     return " ".join(toks)
 
@@ -69,7 +69,7 @@ def reduce_line(line):
     t = line.split()
     n = int(t[1])
     for i in range(n):
-        yield " ".join(["nms", str(n - 1)] + t[2:2 + 6 * i] + t[2 + 6 * (i + 1):])
+        yield " ".join(["nms", str(n - 1)] + t[2:2 + 7 * i] + t[2 + 7 * (i + 1):])
 
 
 def shape_key(case, results):
